@@ -222,6 +222,9 @@ var c06Templates = []string{
 	"package main\n\nlet sel (a:int) =\n  if a > 2 then\n    let b =@6@a * 2\n    b\n  elif a > 1 then\n    2\n  else\n    let c = 3\n    c + a\n",
 	// a default-less inner match as the last expression of an outer arm, the outer default arm (needed / not needed) right after it
 	"package main\n\ntype W =\n  | P\n  | Q\n\ntype U =\n  | A of int\n  | B\n  | C\n\nlet h1 (u:U) (w:W) =\n  match u with\n  | A r ->\n    match w with\n    | P -> r * 3\n    | Q ->@6@r * 6\n  | _ -> 0\n\nlet h2 (u:U) (w:W) =\n  match u with\n  | B -> 1\n  | C -> 2\n  | A r ->\n    match w with\n    | P -> r\n    | Q -> 6\n  | _ -> 0\n\nlet h3 (s:string) (w:W) =\n  match s with\n  | \"x\" ->\n    match w with\n    | P -> 1\n    | Q -> 2\n  | _ -> 0\n",
+	// bodies that start in the middle of a line (one-line let, match arm, else) with the pipeline broken before |>:
+	// the operator line continues the expression wherever it is indented
+	"package main\n\ntype AB =\n  | A\n  | B\n\nlet inc (x:int) =\n  x + 1\n\nlet viaInc (n:int) = n@2@|> inc\n\nlet pick (ab:AB) (n:int) =\n  match ab with\n  | A -> n\n  | B -> n@4@|> inc@4@|> inc\n\nlet choose (c:bool) (n:int) =\n  if c then\n    n\n  else n@2@|> inc\n\nlet pick2 (ab:AB) (n:int) =\n  match ab with\n  | B -> n@6@|> inc\n  | A -> n\n",
 }
 
 func c06RunTemplate(t int) {
@@ -253,6 +256,7 @@ func Harness_C06B_Record()                { c06RunTemplate(2) }
 func Harness_C06B_Nested()                { c06RunTemplate(3) }
 func Harness_C06B_If()                    { c06RunTemplate(4) }
 func Harness_C06B_InnerMatchThenDefault() { c06RunTemplate(5) }
+func Harness_C06B_MidLineBodyPipe()       { c06RunTemplate(6) }
 
 // break-site and decoration choices alone (concrete columns): same output as
 // the most compact layout
